@@ -30,8 +30,12 @@ func VH_C10_Handshake() {
 	p.arm()
 	p.ctx, p.cancel = context.WithCancel(context.Background())
 	stale := vIntRange("stale", 0, vParam("maxstale", 1))
+	// benign: every stale packet is a well-formed packet of a type the
+	// handshake is specified to skip (ACK, NACK, FIN of an earlier connection)
+	benign := true
 	for i := 0; i < stale; i++ {
 		b := vBytes("stale", vIntRange("stalelen", 1, vParam("maxstalelen", 3)))
+		benign = benign && ((len(b) == 2 && (b[0] == ACK || b[0] == NACK)) || (len(b) == 1 && b[0] == FIN))
 		if vBool("stale_to_server") {
 			p.c2s.ch <- b
 		} else {
@@ -115,6 +119,12 @@ func VH_C10_Handshake() {
 	if stale == 0 && p.c2s.faulty+p.s2c.faulty == 0 {
 		vReach("fault-free")
 		vAssert(cliState == 1 && srvState == 1, "a fault-free handshake attempt must succeed and data must flow")
+	}
+	if stale > 0 && benign && p.c2s.faulty+p.s2c.faulty == 0 {
+		// the transport behaves and what is queued ahead of the handshake are
+		// packets both handshakes skip: the attempt succeeds and data flows
+		vReach("benign-stale")
+		vAssert(cliState == 1 && srvState == 1, "stale ACK/NACK/FIN packets of an earlier connection, queued ahead of a loss-free handshake, made the attempt fail")
 	}
 	if cliState == 1 || srvState == 1 {
 		vReach("exchanged")
